@@ -147,4 +147,29 @@ CHECKS = {
              "thorough": {"checks": 60000, "shards": 16, "timeout": 3600, "shrink": "60s"}},
         ],
     },
+    "C05": {
+        "level": "exploration",
+        "rule": "rapid-generated cases on a client whose two header stores are pre-filled: 1-3 peers whose getcfilters response stream is a generated edit of the correct stream (reverse, rotate, duplicate, drop, corrupt item i with a filter omitting a script / superset filter / flipped byte / garbage / empty / wrong type / wrong block hash / other block's filter, unsolicited items, silence; per request), 1-6 GetCFilter calls (block 1, tip, any height; no / forward / reverse batch; MaxBatchSize 1-12), PersistToDisk on/off, tiny or default cache. Oracle: every returned filter hashes with the committed previous header to the committed header (independent computation), every FilterCache entry and every FilterDB entry likewise after each call, a second call returns the same filter, a call returns when a fully honest peer exists. Non-trivial = some response stream contained a corrupted or unsolicited item, or a batch option was used; distinct = distinct case JSON",
+        "assumptions": NETSIM_ASSUME + [
+            "concurrent GetCFilter callers are not generated: the call holds a sync.Mutex across the network query and a goroutine waiting for a sync.Mutex is not durably blocked, which would freeze the bubble's virtual clock",
+            "a call that is still waiting when no peer answers correctly is not a violation (the property only forbids returning something unverified)",
+        ],
+        "units": [
+            {"name": "netsim", "module": "harness", "pkg": "./checks/fetch", "test": "TestC05", "tags": "verif",
+             "quick": {"checks": 30, "shards": 16, "timeout": 600},
+             "thorough": {"checks": 450, "shards": 16, "timeout": 3600, "shrink": "60s"}},
+        ],
+    },
+    "C06": {
+        "level": "exploration",
+        "rule": "rapid-generated cases on a client with pre-filled stores: 1-3 peers whose getdata(block) response stream is a generated edit of the correct one (changed / added / removed / duplicated-last transaction, stripped or forged witness, stripped coinbase witness, another block, duplicates, silence, unsolicited), 1-6 GetBlock calls, some concurrent. Oracle: a returned block has the requested hash, reproduces the merkle root, has no duplicate transaction and a valid witness commitment (all recomputed independently); every BlockCache entry likewise; a peer whose response contained only invalid blocks with the requested header is banned and disconnected; a peer that never sent such a block is not banned; a call returns when a fully honest peer exists. Non-trivial = some peer sent an invalid block carrying the requested header; distinct = distinct case JSON",
+        "assumptions": NETSIM_ASSUME + [
+            "the client hands each received message to the query in its own goroutine, so the ban of a sender is asserted only when every block with the requested header in one response was invalid",
+        ],
+        "units": [
+            {"name": "netsim", "module": "harness", "pkg": "./checks/fetch", "test": "TestC06", "tags": "verif",
+             "quick": {"checks": 30, "shards": 16, "timeout": 600},
+             "thorough": {"checks": 450, "shards": 16, "timeout": 3600, "shrink": "60s"}},
+        ],
+    },
 }
